@@ -153,6 +153,8 @@ def plan_server(op: dict, doc: dict, c: inst.Canary, prop: str, literal_enums: b
             b.update(media_type=rs["media_type"] + cs_, content_hex=text.encode(enc).hex(), J=text, source="text")
         else:
             data = c.bytes_()
+            if r.random() < 0.08:
+                data = b""  # a zero-length file is a file (replies only: request payloads stay unique so that parts are attributable)
             b.update(media_type=rs["media_type"], content_hex=data.hex(), J={"__bytes__": data.hex()}, source="bytes")
     else:
         doc_statuses = {rs["status"] for rs in op["responses"]}
